@@ -325,6 +325,10 @@ def run(rep, facts, tier):
         default_types = set(strip_generics(b.impl_self or '') for b in fx.bodies if b.name == 'len_serialized' and b.impl_self)
         rule_14_6(rep, facts['security'], pre='security:', skip=default_types)
 
+    # ------------------------------------------------------------ R14.10 crossed roles (shared lint, rdv/swaplint.py)
+    from rdv import swaplint
+    swaplint.run_rule(rep, facts['default'], 'R14.10', ['messages::', 'rtps::message', 'rtps::submessage', 'structure::sequence_number'])
+
 
 def rule_14_6(rep, fx, pre='', skip=()):
     from rdv.sizes import Sizes, Unsupported, show, freeze
